@@ -130,8 +130,9 @@ func ClearRules() error {
 func LoadRules(rules []*Rule) (bool, error) {
 	rulesMap := make(map[string]*Rule, 16)
 	for _, rule := range rules {
-		if rule == nil {
-			// nil elements are ignored like any other invalid rule
+		if rule == nil || rule.Rule == nil {
+			// nil elements and rules without the embedded circuit breaker rule (hence without a
+			// resource) are ignored like any other invalid rule
 			continue
 		}
 		rulesMap[rule.Resource] = rule
@@ -187,11 +188,11 @@ func onResourceRuleUpdate(res string, rule *Rule) (err error) {
 		}
 	}()
 
-	circuitRule := rule.Rule
 	if err = IsValidRule(rule); err != nil {
 		logging.Warn("[Outlier onResourceRuleUpdate] Ignoring invalid outlier ejection rule", "rule", rule, "err", err.Error())
 		return
 	}
+	circuitRule := rule.Rule
 	if err = circuitbreaker.IsValidRule(circuitRule); err != nil {
 		logging.Warn("[Outlier onRuleUpdate] Ignoring invalid rule when loading new rules", "rule", rule, "err", err.Error())
 		return
@@ -269,6 +270,9 @@ func ClearRuleOfResource(res string) error {
 func IsValidRule(r *Rule) error {
 	if r == nil {
 		return errors.New("nil Rule")
+	}
+	if r.Rule == nil {
+		return errors.New("nil circuit breaker Rule")
 	}
 	if len(r.Resource) == 0 {
 		return errors.New("empty resource name")
